@@ -267,14 +267,17 @@ class Unit:
         sig_override = None
         arm = None
         nodecreases = False
+        optional_loops = set()
         mode = 'clauses'
         cur = None
         for ln in spec:
             t = ln.strip()
-            m = re.match(r'loop\s+(\d+)\s*$', t)
+            m = re.match(r'loop(\??)\s+(\d+)\s*$', t)
             if m:
                 mode = 'loop'
-                cur = loops.setdefault(int(m.group(1)), [])
+                cur = loops.setdefault(int(m.group(2)), [])
+                if m.group(1):
+                    optional_loops.add(int(m.group(2)))   # `loop? k`: clauses for a loop that may be absent
                 continue
             m = re.match(r'(?:proof|ghost)-(after|before)\s+/(.*)/(?:#(-?\d+))?\s*$', t)
             if m:
@@ -391,6 +394,8 @@ class Unit:
         loop_braces = X.find_loops(body, 0)
         inserts = []  # (pos_in_body, text)
         for k, lines in loops.items():
+            if k > len(loop_braces) and k in optional_loops:
+                continue
             if k < 1 or k > len(loop_braces):
                 raise X.AnchorError('fn %s: loop %d not found (has %d)' % (name, k, len(loop_braces)))
             inserts.append((loop_braces[k - 1], ('loop', k, lines)))
